@@ -73,7 +73,8 @@ fn gen_record(ctx: &mut Ctx) -> (Vec<u8>, &'static str) {
         (record(total as u32, src, dst, app.len() as u8, &app, &payload), "valid")
     } else if k < 65 {
         // declared length shorter than the fixed header: `len` arbitrary bytes follow
-        let len = ctx.rng.below(37) as u32;
+        // the values next to the header size are drawn as often as all others together
+        let len = if ctx.rng.chance(1, 2) { *ctx.rng.pick(&[0u32, 1, 35, 36]) } else { ctx.rng.below(37) as u32 };
         let mut v = len.to_be_bytes().to_vec();
         v.extend(ctx.rng.bytes(len as usize));
         (v, "short")
